@@ -149,7 +149,7 @@ def run(prop, tier, seed, replay, jobs):
         seen = set()
         for v in new:
             h = hashlib.sha1(json.dumps([v['prop'], v['key'], v['case']], sort_keys=True).encode()).hexdigest()[:12]
-            if (v['prop'], v['key']) in seen:
+            if (v['prop'], v['key']) in seen and not os.environ.get('VMON_MAXV'):
                 continue
             seen.add((v['prop'], v['key']))
             path = os.path.join(rdir, f'{v["prop"]}-{h}.json')
